@@ -81,10 +81,10 @@ class TestFn:
         self.lean = poly.lean()
 
 
-def test_functions(symbols, seed=7):
+def test_functions(symbols, seed=7, deg=3):
     """symbols: dict base name -> nargs.  Returns a lazy dict name -> TestFn supporting derivative names `f_d01`."""
     rng = random.Random(seed)
-    base = {k: Poly.random(rng, n) for k, n in sorted(symbols.items())}
+    base = {k: Poly.random(rng, n, deg=deg) for k, n in sorted(symbols.items())}
 
     class Lazy(dict):
         def __missing__(self, key):
@@ -247,8 +247,70 @@ def sde_symbols(noise_type, d, m, nth=0):
     return u.symbols()
 
 
-def make_step(method, sde_type, noise_type, d=1, m=1, options=None, batch=1, seed=7, stage_apps=False):
-    """returns (fn(B), sample(rng), funcs) for one solver step"""
+# ---------------------------------------------------------------------------------------------------------------
+# C16: interface variants of the fake user SDE (the SAME functions exposed through different method subsets)
+# ---------------------------------------------------------------------------------------------------------------
+
+METHS = ('f', 'g', 'f_and_g', 'g_prod', 'f_and_g_prod')
+
+# variant -> (methods the user object exposes, `names` argument of sdeint or None)
+VARIANTS = {
+    'fg': (('f', 'g'), None),
+    'fandg': (('f_and_g',), None),
+    'f_g_gprod': (('f', 'g', 'g_prod'), None),
+    'f_gprod': (('f', 'g_prod'), None),
+    'fgprod': (('f_and_g_prod',), None),
+    'fandg_gprod': (('f_and_g', 'g_prod'), None),
+    'fandg_fgprod': (('f_and_g', 'f_and_g_prod'), None),
+    'renamed': (('f', 'g'), {'drift': 'foo', 'diffusion': 'bar'}),
+    'renamed_all': (METHS, {'drift': 'foo', 'diffusion': 'bar', 'drift_and_diffusion': 'baz',
+                            'drift_and_diffusion_prod': 'qux'}),
+}
+# key of `names` -> the method it renames (sdeint's check_contract has no key for g_prod)
+NAME_KEYS = {'drift': 'f', 'diffusion': 'g', 'drift_and_diffusion': 'f_and_g', 'drift_and_diffusion_prod': 'f_and_g_prod'}
+
+
+def user_prod(noise_type, g, v):
+    """what a user writes for the diffusion-vector product: the same operations, in the same order, as the library's
+    prod_diagonal (g * v) resp. misc.batch_mvp (bmm(g, v[..., None])[..., 0]) - written out here, NOT imported"""
+    if noise_type == 'diagonal':
+        return g * v
+    return torch.bmm(g, v.unsqueeze(-1)).squeeze(dim=-1)
+
+
+class VariantSDE:
+    """user-facing object exposing only `present` (subset of METHS) of the functions of `user`; with `names` the
+    renameable methods are exposed under the new names only (as a user of sdeint(names=...) would write them)"""
+
+    def __init__(self, user, present, names=None):
+        self.noise_type, self.sde_type = user.noise_type, user.sde_type
+        self._u = user
+        nt = user.noise_type
+        impl = {
+            'f': lambda t, y: user.f(t, y),
+            'g': lambda t, y: user.g(t, y),
+            'f_and_g': lambda t, y: (user.f(t, y), user.g(t, y)),
+            'g_prod': lambda t, y, v: user_prod(nt, user.g(t, y), v),
+            'f_and_g_prod': lambda t, y, v: (user.f(t, y), user_prod(nt, user.g(t, y), v)),
+        }
+        rename = {NAME_KEYS[k]: v for k, v in (names or {}).items()}
+        for mname in present:
+            setattr(self, rename.get(mname, mname), impl[mname])
+
+
+def wrap_like_sdeint(sde, names=None):
+    """what torchsde._core.sdeint.check_contract does with (sde, names) before handing it to the solver"""
+    from torchsde._core import sdeint as sdeint_mod
+    keys = ("drift", "diffusion", "prior_drift", "drift_and_diffusion", "drift_and_diffusion_prod")
+    ntc = {} if names is None else {k: names[k] for k in keys if k in names}
+    if len(ntc) > 0:
+        sde = sdeint_mod.base_sde.RenameMethodsSDE(sde, **ntc)
+    return ForwardSDE(sde)
+
+
+def make_step(method, sde_type, noise_type, d=1, m=1, options=None, batch=1, seed=7, stage_apps=False, variant='fg', hook=None):
+    """returns (fn(B), sample(rng), funcs) for one solver step; `variant`: key of VARIANTS or (present, names);
+    `hook(forward_sde)` is called on the ForwardSDE before the solver is built (instrumentation)"""
     m_eff = d if noise_type == 'diagonal' else m
     syms = sde_symbols(noise_type, d, m_eff)
     funcs, base = test_functions(syms, seed)
@@ -259,7 +321,13 @@ def make_step(method, sde_type, noise_type, d=1, m=1, options=None, batch=1, see
         y0 = B.x('y0', (batch, d))
         user = UserSDE(B, noise_type, sde_type, d, m_eff, base_polys=base)
         user.stage_apps = stage_apps and B.sym
-        sde = ForwardSDE(user)
+        if variant == 'fg':
+            sde = ForwardSDE(user)
+        else:
+            present, names = VARIANTS[variant] if isinstance(variant, str) else variant
+            sde = wrap_like_sdeint(VariantSDE(user, present, names), names)
+        if hook is not None:
+            hook(sde)
         W = B.x('dW', (batch, m_eff))
         U = B.x('U', (batch, m_eff)) if levy != 'none' else None
         A = B.x('A', (batch, m_eff, m_eff)) if levy in ('davie', 'foster') else None
